@@ -127,62 +127,59 @@ func runC52Mut(c *Ctx, cfg c52MutCfg) {
 
 	eng := frsNewEngine(c.P)
 	dyn := frsDynamicMethods(c.P)
-	type sink struct {
-		fn   *ssa.Function
-		at   ssa.Instruction
-		dest ssa.Value
-		how  string
-	}
-	var sinks []sink
-	for _, f := range eng.ix.funcs {
-		for _, b := range f.Blocks {
-			for _, in := range b.Instrs {
-				switch x := in.(type) {
-				case *ssa.Store:
-					if !geoAddr(x.Addr) {
-						continue
+	type sink = frsSink
+	sinks, _ := eng.ProtectedSinks(func(f *ssa.Function, in ssa.Instruction) []frsSink {
+		var out []frsSink
+		switch x := in.(type) {
+		case *ssa.Store:
+			if !geoAddr(x.Addr) {
+				return nil
+			}
+			root := frsStoreRoot(x.Addr)
+			if root == nil {
+				return nil // into a local variable / composite literal of the function
+			}
+			out = append(out, sink{f, in, root, "store " + frsDescribe(x.Addr)})
+		case ssa.CallInstruction:
+			com := x.Common()
+			if bi, ok := com.Value.(*ssa.Builtin); ok {
+				if bi.Name() == "copy" && len(com.Args) == 2 && geoish(com.Args[0].Type(), 0) {
+					out = append(out, sink{f, in, com.Args[0], "copy into " + frsDescribe(com.Args[0])})
+				}
+				if bi.Name() == "append" && len(com.Args) > 0 && geoish(com.Args[0].Type(), 0) {
+					if base := frsShortenedReslice(com.Args[0]); base != nil {
+						out = append(out, sink{f, in, base, "append to shortened re-slice of " + frsDescribe(base)})
 					}
-					root := frsStoreRoot(x.Addr)
-					if root == nil {
-						continue // into a local variable / composite literal of the function
-					}
-					sinks = append(sinks, sink{f, in, root, "store " + frsDescribe(x.Addr)})
-				case ssa.CallInstruction:
-					com := x.Common()
-					if bi, ok := com.Value.(*ssa.Builtin); ok {
-						if bi.Name() == "copy" && len(com.Args) == 2 && geoish(com.Args[0].Type(), 0) {
-							sinks = append(sinks, sink{f, in, com.Args[0], "copy into " + frsDescribe(com.Args[0])})
-						}
-						if bi.Name() == "append" && len(com.Args) > 0 && geoish(com.Args[0].Type(), 0) {
-							if base := frsShortenedReslice(com.Args[0]); base != nil {
-								sinks = append(sinks, sink{f, in, base, "append to shortened re-slice of " + frsDescribe(base)})
-							}
-						}
-						continue
-					}
-					callee := com.StaticCallee()
-					if callee == nil {
-						continue
-					}
-					wr := eng.Writes(callee)
-					var js []int
-					for j := range wr {
-						js = append(js, j)
-					}
-					sort.Ints(js)
-					for _, j := range js {
-						if j < len(com.Args) && geoish(orgPeel(com.Args[j]).Type(), 0) {
-							sinks = append(sinks, sink{f, in, com.Args[j], fmt.Sprintf("%s(%s)", frsQualName(callee), frsDescribe(com.Args[j]))})
-						}
-					}
+				}
+				return out
+			}
+			callee := com.StaticCallee()
+			if callee == nil || frsReadable(callee) {
+				return out // module functions become writers by forwarding (ProtectedSinks)
+			}
+			wr := frsStdWrites(callee)
+			var js []int
+			for j := range wr {
+				js = append(js, j)
+			}
+			sort.Ints(js)
+			for _, j := range js {
+				if j < len(com.Args) && geoish(orgPeel(com.Args[j]).Type(), 0) {
+					out = append(out, sink{f, in, com.Args[j], frsQualName(callee)})
 				}
 			}
 		}
-	}
+		return out
+	}, func(f *ssa.Function, p *ssa.Parameter) bool {
+		return !dyn(f) && len(eng.ix.callers[f]) > 0 && !isGeoVal(p.Type())
+	})
 	dump := os.Getenv("VCHK_DUMP") != "" && !c.fixtureMode
 	for _, s := range sinks {
 		fk := frsFuncKey(s.fn)
 		key := fk + "/" + s.how
+		if _, isCall := s.at.(ssa.CallInstruction); isCall && !strings.HasPrefix(s.how, "copy into") && !strings.HasPrefix(s.how, "append to") {
+			key = fmt.Sprintf("%s/%s(%s)", fk, s.how, frsDescribe(s.dest))
+		}
 		pos := s.at.Pos()
 		if !pos.IsValid() {
 			pos = s.fn.Pos()
